@@ -85,6 +85,18 @@ func c16Stream(r *rand.Rand, kind int) (stream []byte, ncmds int, desc string) {
 		body := "SET k1 " + pick(r, g.freeIDs) + " POINT " + g.lat(r) + " " + g.lon(r)
 		req := fmt.Sprintf("POST / HTTP/1.1\r\nHost: x\r\nContent-Length: %d\r\n\r\n%s", len(body), body)
 		return []byte(req), 1, "HTTP POST"
+	case 7: // valid commands, then a frame that breaks the protocol: the commands ahead of it count
+		n := 2 + r.Intn(5)
+		for i := 0; i < n; i++ {
+			stream = append(stream, encodeCmd(cmdArgs())...)
+		}
+		bad := [][]byte{[]byte("*2\r\n$3\r\nGET\r\n$-5\r\n"), []byte("*x\r\n"), []byte("*1\r\n$zz\r\nPING\r\n"),
+			[]byte("*3\r\n$3\r\nSET\r\n:12\r\n"), []byte("SET k1 \"unbalanced POINT 1 1\r\n"), []byte("*-7\r\n")}[r.Intn(6)]
+		stream = append(stream, bad...)
+		if r.Intn(2) == 0 {
+			stream = append(stream, encodeCmd([]string{"PING"})...)
+		}
+		return stream, n, fmt.Sprintf("RESP pipeline of %d commands followed by a malformed frame", n)
 	case 5: // values larger than the 64 KiB read buffer
 		n := 2 + r.Intn(3)
 		for i := 0; i < n; i++ {
@@ -155,7 +167,7 @@ func runC16(w *World) {
 		runC16Containment(w, n)
 		return
 	}
-	kind := w.knob("kind", 7)
+	kind := w.knob("kind", 8)
 	var stream []byte
 	var ncmds int
 	var desc string
